@@ -21,7 +21,7 @@ VARIANTS = [
     fire("c18-unsplatted", [(ST, FIXED, "            ideal_unitary = lambda *args, _unitary=gate.ideal_unitary: _unitary(args[:-1])")], ("C18.3", "closure:protocol"), ("C18",)),
     fire("c18-drops-first-argument", [(ST, FIXED, "            ideal_unitary = lambda *args, _unitary=gate.ideal_unitary: _unitary(*args[1:])")], ("C18.3", "closure:protocol"), ("C18",)),
     fire("c18-parent-signature-mutated", [(ST, "        parameters = gate.parameters.copy()", "        parameters = gate.parameters")], ("C18.3", "parameters"), ("C18",)),
-    fire("c18-stretch-int", [(ST, 'Parameter("stretch", ParamType.FLOAT)', 'Parameter("stretch", ParamType.INT)')], ("C18.3", "parameters"), ("C18",)),
+    fire("c18-stretch-int", [(ST, 'Parameter(stretch_name, ParamType.FLOAT)', 'Parameter(stretch_name, ParamType.INT)')], ("C18.3", "parameters"), ("C18",)),
     fire("c18-keyword-order-sorted", [(GD, "                for param in self.parameters:\n                    params[param.name] = kwargs.pop(param.name)", "                for param in sorted(self.parameters, key=lambda p: p.name):\n                    params[param.name] = kwargs.pop(param.name)")], ("C18.1", "fills"), ("C18",)),
     fire("c18-extra-keywords-ignored", [(GD, "            if kwargs:\n                raise JaqalError(\n                    f\"Invalid parameters {', '.join(kwargs)} for gate {self.name}.\"\n                )\n", "")], ("C18.1", "unknown-keywords-rejected"), ("C18",)),
     fire("c18-idle-prepare-allowed", [(GD, '        if gate.name in ("prepare_all", "measure_all"):\n            raise JaqalError(f"Cannot make an idle gate for {gate.name}")\n', "")], ("C18.2", "prepare-measure-refused"), ("C18",)),
@@ -35,7 +35,7 @@ ST18 = "src/jaqalpaq/core/stretch.py"
 VARIANTS += [
     # reverting fix cc38cf1
     fire("c18-stretched-keyed-by-none",
-         [(ST18, '        if suffix is None:\n            suffix = ""\n        new_name = gate.name + suffix\n', "        if suffix:\n            new_name = gate.name + suffix\n        else:\n            new_name = None\n")],
+         [(ST18, '        new_name = gate.name + suffix\n\n        parameters', "        if suffix:\n            new_name = gate.name + suffix\n        else:\n            new_name = None\n\n        parameters")],
          ("C18.3", "stretched_gates:result-key"), ("C18",)),
 ]
 PA18 = "src/jaqalpaq/core/parameter.py"
